@@ -1065,7 +1065,17 @@ static void wlScale(Ctx& c, int nexec, int len)
       for(int step = 0; step < len; step++)
       {
          int k = c.rng.R(0, 99); SoPlex& s = *c.objs[o]; bool solvable = s.numCols() > 0 && s.numRows() > 0;
-         if(k < 45) { int tries = 0; while(!randomModReal(c, o, gen, maxDim) && ++tries < 50) {} }
+         if(k < 8 && solvable && Probe::scaled(s))
+         {
+            // boundary value: the new side / bound / cost is bit-for-bit the value the library stores internally for it (the SCALED one),
+            // so that a comparison of a user-level value with an internal one cannot go unnoticed
+            const SPxLPBase<double>& in = Probe::realLP(s); int what = c.rng.R(0, 3), nr = s.numRows(), nc = s.numCols(); J g;
+            if(what == 0) { int j = c.rng.R(0, nc - 1); double v = in.upper(j); if(!(v < infinity) || v < s.lowerReal(j) || v == s.upperReal(j)) continue; s.changeUpperReal(j, v); g.i("i", j).q("v", v); modEvent(c, o, "changeUpper", g.str()); }
+            else if(what == 1) { int j = c.rng.R(0, nc - 1); double v = in.lower(j); if(!(v > -infinity) || v > s.upperReal(j) || v == s.lowerReal(j)) continue; s.changeLowerReal(j, v); g.i("i", j).q("v", v); modEvent(c, o, "changeLower", g.str()); }
+            else if(what == 2) { int i = c.rng.R(0, nr - 1); double v = in.rhs(i); if(!(v < infinity) || v < s.lhsReal(i) || v == s.rhsReal(i)) continue; s.changeRhsReal(i, v); g.i("i", i).q("v", v); modEvent(c, o, "changeRhs", g.str()); }
+            else { int i = c.rng.R(0, nr - 1); double v = in.lhs(i); if(!(v > -infinity) || v > s.rhsReal(i) || v == s.lhsReal(i)) continue; s.changeLhsReal(i, v); g.i("i", i).q("v", v); modEvent(c, o, "changeLhs", g.str()); }
+         }
+         else if(k < 45) { int tries = 0; while(!randomModReal(c, o, gen, maxDim) && ++tries < 50) {} }
          else if(k < 85) { if(!solvable) continue; SolveOpts so; so.complete = false; optimize(c, o, so); if(c.rng.coin(1, 4)) freshSolve(c, o); }
          else if(k < 92) queryBasis(c, o);
          else if(k < 96) setInt(c, o, "SCALER", SoPlex::SCALER, c.rng.R(0, 6));
